@@ -83,6 +83,12 @@ CHECKS = {
         text="Programs mixing untyped and explicit values (incl. explicit use of the pool head and 30-140 untyped values) are compiled by the real compiler; a monitor on _allocate_factorio_virtual_signal checks that every compiler-chosen name is no wildcard, not signal-W, not used explicitly by the program and not handed out twice; the twin with every untyped value projected onto a fresh explicit signal is executed for the same valuations and must agree.",
         design_ref="DESIGN.md 3 (C13)",
     ),
+    "C20": dict(
+        category="exploration",
+        technique="runtime monitoring: structural oracle over the emitted blueprint's descriptions and anchors plus reference-value oracle on each anchor network of the executed blueprint",
+        text="Generated programs with mixes of consumed/unconsumed names, aliases, and outputs of every producer kind are compiled with optimisation on and off; for every unreferenced top-level name exactly one empty labelled anchor must exist whose network carries the reference value of the result's own signal(s), producers must carry name and declaration line, declared constants must be labelled with name and value, consumed names must not get anchors.",
+        design_ref="DESIGN.md 3 (C20)",
+    ),
 }
 
 PENDING = {}
